@@ -26,6 +26,7 @@ from schema_util import (
     Inst,
     Loader,
     Other,
+    FloatX,
     doc_dep,
     doc_name,
     is_primitive,
@@ -213,7 +214,7 @@ def unjson(obj):
 # ----------------------------------------------------------------------------- generators
 T0 = ("call", "run_command", {"name": "t0", "run": "true"})
 E1 = ("call", "run_command", {"name": "e1", "run": "true"})
-VALUES = ["s", "", True, False, 0, 3, 1.5, None, [], ["a"], [1], {}, {"k": 1}, Other("()"), Other("set()"), [":t0"], [None],
+VALUES = ["s", "", True, False, 0, 3, 1.5, FloatX("float('inf')"), [FloatX("float('nan')"), 2], {"k": FloatX("float('-inf')")}, None, [], ["a"], [1], {}, {"k": 1}, Other("()"), Other("set()"), [":t0"], [None],
           [Other("1j")], {"k": Other("__import__('fractions').Fraction(1, 2)")}, [1, Other("__import__('decimal').Decimal('1.5')")], {"z": Other("1j")}, Other("1j")]
 NAMES_BAD = ["", " ", "a b", "foo\n", "a.b", "a/b", "a:b", ":a", "é", "a\n\n", "\nfoo", "a\tb", "-", "_", "0", "A-z_0", "run-{threads}", "{", "{0}"]
 DEPS_POOL = [":t0", "//d:t0", "//other:x", "//other:e1", ":e1", ":t0\n", "other:x", "t0", "", ":", "//:", "//other:", ":a b", "//other//x:y",
